@@ -101,7 +101,7 @@ func mkNamed(t Task) *task.BaseTask {
 	// as the schedule handler (operator.go:163-191) or, for Kube, the kubernetes event handler
 	// (operator.go:133-161) builds it; ExecuteOnSynchronization is set by taskHandleEnableKubernetesBindings only
 	hm := task_metadata.HookMetadata{HookName: hookName(t.Hook), BindingType: htypes.Schedule,
-		Group: groups[t.Group%len(groups)], ExecuteOnSynchronization: t.Exec}
+		Group: groups[t.Group%len(groups)], ExecuteOnSynchronization: t.Exec, AllowFailure: t.AF}
 	if t.Kube {
 		hm.BindingType = htypes.OnKubernetesEvent
 	}
@@ -200,14 +200,18 @@ func runSet(in Input, exported bool) (Res, [][]int) {
 // ---- rendering ----
 
 func coqNamedTask(t Task) string {
-	return fmt.Sprintf("TQ %d %d %d %s %s %s %d", t.Id, t.Hook, t.Ty, core.CoqBool(!t.NoMeta),
+	s := fmt.Sprintf("TQ %d %d %d %s %s %s %d", t.Id, t.Hook, t.Ty, core.CoqBool(!t.NoMeta),
 		core.CoqList(t.Ctxs, coqCtx), core.CoqList(t.Mids, core.CoqN), t.Name)
+	if t.AF {
+		return "AF (" + s + ")"
+	}
+	return s
 }
 
 // coqFullTask: the task with the three fields the task handler reads (classes "op" and "sync")
 func coqFullTask(t Task) string {
-	return fmt.Sprintf("TG %d %d %d %s %s %s %d %s %d %s", t.Id, t.Hook, t.Ty, core.CoqBool(!t.NoMeta),
-		core.CoqList(t.Ctxs, coqCtx), core.CoqList(t.Mids, core.CoqN), t.Name, core.CoqBool(t.Kube), t.Group, core.CoqBool(t.Exec))
+	return fmt.Sprintf("TG %d %d %d %s %s %s %d %s %d %s %s", t.Id, t.Hook, t.Ty, core.CoqBool(!t.NoMeta),
+		core.CoqList(t.Ctxs, coqCtx), core.CoqList(t.Mids, core.CoqN), t.Name, core.CoqBool(t.Kube), t.Group, core.CoqBool(t.Exec), core.CoqBool(t.AF))
 }
 
 func coqQset(queues []int, q []Task) string { return coqQsetWith(queues, q, coqNamedTask) }
@@ -321,6 +325,15 @@ func renderSet(in Input, obs *Observation, crash string) core.Case {
 	if len(in.App) > 0 {
 		c.Tags = append(c.Tags, fmt.Sprintf("arrivals:%d", len(in.App)))
 	}
+	if sit == "named/head-of-its-queue" {
+		var own []Task
+		for _, t := range in.Q {
+			if t.Qn == in.T.Name {
+				own = append(own, t)
+			}
+		}
+		c.Tags = append(c.Tags, policyTags(own)...)
+	}
 	seen := map[int]bool{}
 	dup := false
 	for _, t := range append(append([]Task{}, in.Q...), in.App...) {
@@ -395,6 +408,7 @@ func (g *gen) setLayout() Input {
 		t.Name = t.Qn
 		in.App = append(in.App, t)
 	}
+	g.policies(in.Q, in.App)
 	heads := map[int]int{} // queue -> index in in.Q of its head
 	for i := len(in.Q) - 1; i >= 0; i-- {
 		heads[in.Q[i].Qn] = i
@@ -428,6 +442,7 @@ func (g *gen) setLayout() Input {
 		in.T = g.task(nHooks)
 		in.T.NoMeta = false
 		in.T.Ty = 0
+		in.T.AF = g.r.Chance(30)
 		if g.r.Chance(75) { // same hook as a head, so that there is something it could (wrongly) merge
 			in.T.Hook = in.Q[aHead].Hook
 		}
@@ -495,6 +510,11 @@ func SetCorpus() []Input {
 	// a set without "main"; an empty queue named by the task
 	add(nt(9, 1, 0, 0, ctxs(90, 0)), []int{2}, nil, qa2...)
 	add(nt(9, 1, 0, 3, ctxs(90, 0)), []int{1, 3}, nil, main3...)
+	// failure policies: the head of "qa" strict, its follower lenient; the head of "main" lenient, its follower strict
+	lt := func(t Task) Task { t.AF = true; return t }
+	mixed := []Task{lt(main3[0]), main3[1], main3[2], qa2[0], lt(qa2[1])}
+	add(mixed[0], []int{1, 2}, nil, mixed...)
+	add(mixed[3], []int{1, 2}, []Task{lt(nt(8, 1, 2, 2, ctxs(80, 1)))}, mixed...)
 	return ins
 }
 
